@@ -141,7 +141,9 @@ Garbage  == <<"garbage">>
 Panicked == <<"panic">>
 Unapply(d, t) == IF t = Panicked THEN Panicked
                  ELSE IF t = Garbage \/ Len(t) # 3 \/ t[1] # d.stage THEN Garbage
-                 ELSE IF t[2] \notin DecModes(d.stage) THEN Panicked             \* unimplemented!() in the decoder
+                 \* the decoder does not implement the encoder's mode: Err since 8c7dcc0 (pkware::decompress validates
+                 \* the stream header first); before that the implode crate's unimplemented!() panicked (Panicked)
+                 ELSE IF t[2] \notin DecModes(d.stage) THEN Garbage
                  ELSE IF StrictSize(d.stage) /\ d.exp = "x4" THEN Garbage       \* Err(size mismatch)
                  ELSE t[3]
 Decode(plan, t) == LET F[j \in 0..Len(plan)] == IF j = 0 THEN t ELSE Unapply(plan[j], F[j-1]) IN F[Len(plan)]
